@@ -18,6 +18,7 @@
 #include "snoopy.h"
 
 int snoopy_filter_exclude_spawns_of(char const * const arg);
+int snoopy_filtering_check_chain(char const * const filterChain);
 
 static ssize_t slurp(const char *path, char *buf, size_t cap) {
     int fd = open(path, O_RDONLY); if (fd < 0) return -1;
@@ -89,7 +90,15 @@ static void report_calls(FILE *rep, const char *id, const char *argspec, int orp
         char *exact = malloc(en + 1); memcpy(exact, eff, en + 1);
         int r = snoopy_filter_exclude_spawns_of(exact);
         free(exact);
-        fprintf(rep, "%s%s", k ? "," : "", r == SNOOPY_FILTER_DROP ? "drop" : r == SNOOPY_FILTER_PASS ? "pass" : "other");
+        int rc = r;
+        if (!memchr(eff, ';', en) && en < 3000) {          /* the same call as the filter chain walker makes it */
+            char *chain = malloc(en + 32); int pl = sprintf(chain, "exclude_spawns_of:"); memcpy(chain + pl, eff, en + 1);
+            rc = snoopy_filtering_check_chain(chain);
+            free(chain);
+        }
+        const char *vd = r == SNOOPY_FILTER_DROP ? "drop" : r == SNOOPY_FILTER_PASS ? "pass" : "other";
+        if (rc == r) fprintf(rep, "%s%s", k ? "," : "", vd);
+        else fprintf(rep, "%s%s/chain:%s", k ? "," : "", vd, rc == SNOOPY_FILTER_DROP ? "drop" : rc == SNOOPY_FILTER_PASS ? "pass" : "other");
         fprintf(s, "%s", k ? ";" : ""); hexout(s, eff, en);
         free(eff);
     }
@@ -151,10 +160,12 @@ static void handle(int nf, char **f, FILE *out) {
         if (top == 0) {
             close(pfd[0]);
             alarm(30);
+            pid_t forked_by = getppid();
             for (size_t i = 0; ; i++) {
                 /* I am chain member i (or the caller when i == names.n) */
-                if (i == names.n) { prctl(PR_SET_NAME, selfname.p); caller(pfd[1], f[1], f[5], orphan, getppid()); }
+                if (i == names.n) { prctl(PR_SET_NAME, selfname.p); caller(pfd[1], f[1], f[5], orphan, forked_by); }
                 prctl(PR_SET_NAME, names.v[i]);
+                forked_by = getpid();            /* taken before the fork: the child must not ask getppid() after its parent may have gone */
                 pid_t ch = fork();
                 if (ch < 0) _exit(98);
                 if (ch > 0) {
